@@ -220,4 +220,55 @@ inductive ReachI (s0 : State) : State → Prop
   | step {s s' : State} {t : Nat} : ReachI s0 s → step s t = some s' → ReachI s0 s'
   | intr {s s' : State} {t : Nat} : ReachI s0 s → interrupt s t = some s' → ReachI s0 s'
 
+/-! ### the exception path of `Produce` / `Consume` (util/pcqueue.hh: `catch (...) { sem.post(); throw; }`)
+
+`T::operator=` may throw inside the critical section.  The catch block gives the semaphore token back and rethrows;
+unwinding releases the mutex; the cursor has NOT been advanced (the wrap is after the `try`), no ghost history entry
+is made.  The caller (here) retries the same call: the thread is back at `WaitSemaphore`.  The slot a failed
+`Produce` was writing may be left with arbitrary content `g` (it holds no unread value). -/
+
+/-- the copy of thread `tid` (which is at its critical-section body) throws -/
+def fail (s : State) (tid : Nat) (g : Nat) : Option State :=
+  match s.threads[tid]? with
+  | none => none
+  | some th =>
+    match th.role, th.pc with
+    | .prod, .body =>
+      some { s.setT tid { th with pc := .wait } with
+             empty := s.empty + 1
+             pmutex := none
+             ring := upd s.ring s.produceAt g }
+    | .cons, .body =>
+      some { s.setT tid { th with pc := .wait } with
+             used := s.used + 1
+             cmutex := none }
+    | _, _ => none
+
+/-- the exception path of the change seeded as C17-5: the cursor is advanced (helper `Advance`) BEFORE the copy
+runs, so it has moved although the token is given back -/
+def failCursorFirst (s : State) (tid : Nat) (g : Nat) : Option State :=
+  match s.threads[tid]? with
+  | none => none
+  | some th =>
+    match th.role, th.pc with
+    | .prod, .body =>
+      some { s.setT tid { th with pc := .wait } with
+             empty := s.empty + 1
+             pmutex := none
+             ring := upd s.ring s.produceAt g
+             produceAt := wrap s.cap s.produceAt }
+    | .cons, .body =>
+      some { s.setT tid { th with pc := .wait } with
+             used := s.used + 1
+             cmutex := none
+             consumeAt := wrap s.cap s.consumeAt }
+    | _, _ => none
+
+/-- reachability when any copy may fail at any time (and signals may interrupt) -/
+inductive ReachF (s0 : State) : State → Prop
+  | init : ReachF s0 s0
+  | step {s s' : State} {t : Nat} : ReachF s0 s → step s t = some s' → ReachF s0 s'
+  | intr {s s' : State} {t : Nat} : ReachF s0 s → interrupt s t = some s' → ReachF s0 s'
+  | fail {s s' : State} {t g : Nat} : ReachF s0 s → fail s t g = some s' → ReachF s0 s'
+
 end KV.PCQueue
